@@ -3,10 +3,12 @@
    Contents: 1. (in ExprParserMono.v) fuel monotonicity: the model's answer does not depend on the fuel once it is not OutOfFuel;
              2. round trip of the prefix spelling, with an explicit fuel bound (so it holds for [parse] as extracted);
              3. round trip of the infix spelling for [infix_safe] trees ("for every sufficiently large fuel");
-             4. the four witnesses that refute the unrestricted infix round trip on the parser as it is. *)
+             4. consequences; 5. the witness that still refutes the unrestricted infix round trip (group-leading unary),
+                and the former witnesses, which the fixed parser now reads as denoted. *)
 From Coq Require Import NArith ZArith List Bool Lia Arith.
 From NV Require Import gen.Tokens gen.ParserConsts Front.ExprParser Front.InfixSafe Front.ExprParserMono.
 Import ListNotations.
+Arguments generic_args_ahead : simpl never.
 
 (* ================================================================ 2. prefix spelling *)
 Section SxInd.
@@ -195,8 +197,7 @@ Proof.
     cbn [flat_map]. rewrite <- app_assoc.
     rewrite arg_start_not_end by apply curc_pp_prefix.
     rewrite (Ha g d _ err); [| fold (need_list r) in Hg; lia | apply Hd; left; reflexivity |].
-    + rewrite length_app_neq by apply pp_prefix_nonempty.
-      cbn [map opt_expr]. rewrite IH; [| fold (need_list r) in Hg; lia | intros; apply Hd; right; assumption].
+    + cbn [map]. rewrite IH; [| fold (need_list r) in Hg; lia | intros; apply Hd; right; assumption].
       rewrite <- app_assoc. reflexivity.
     + destruct r as [|b r']; [reflexivity|]. cbn [flat_map]. rewrite <- app_assoc. apply arg_start_stop, curc_pp_prefix.
 Qed.
@@ -359,34 +360,164 @@ Proof.
   - rewrite pp_infix_call. eexists; eexists; split; [reflexivity|split; reflexivity].
 Qed.
 
+(* ---------------------------------------------------------------- generic_args_ahead: false unless some '>' is directly followed by '.' *)
+Definition is_gt_tok (t : token) : bool := match tk t with K_GT => true | _ => false end.
+Definition is_dot_tok (t : token) : bool := match pclass (tk t) with P_DOT => true | _ => false end.
+Fixpoint gd_free (ts : list token) : bool :=
+  match ts with
+  | a :: r => match r with b :: _ => negb (is_gt_tok a && is_dot_tok b) | [] => true end && gd_free r
+  | [] => true
+  end.
+Fixpoint ends_gt (l : list token) : bool :=
+  match l with [] => false | a :: r => match r with [] => is_gt_tok a | _ :: _ => ends_gt r end end.
+
+Lemma gd_free_tl t r : gd_free (t :: r) = true -> gd_free r = true.
+Proof. cbn [gd_free]. intros H. apply andb_prop in H as [_ H]. exact H. Qed.
+
+Lemma gclass_gt k : gclass k = G_GT -> k = K_GT.
+Proof. destruct k; cbn; intros H; try discriminate H; reflexivity. Qed.
+
+Lemma ga_false n d ts : gd_free ts = true -> generic_ahead n d ts = false.
+Proof.
+  revert d ts. induction n as [|n IH]; intros d ts H; [reflexivity|].
+  destruct ts as [|t r]; [reflexivity|]. cbn [generic_ahead].
+  pose proof (gd_free_tl _ _ H) as Hr.
+  destruct (gclass (tk t)) eqn:G; try reflexivity; try (apply IH, Hr).
+  destruct (Z.eqb (d - 1) 0); [|apply IH, Hr].
+  apply gclass_gt in G. destruct r as [|b r']; [reflexivity|].
+  cbn [gd_free] in H. apply andb_prop in H as [H _]. unfold is_gt_tok in H. rewrite G in H. cbn in H.
+  unfold is_dot_tok in H. unfold peek, curc. cbn [skipn cur].
+  destruct (pclass (tk b)); try reflexivity. discriminate H.
+Qed.
+
+Lemma gd_app a b : gd_free a = true -> gd_free b = true -> ends_gt a = false -> gd_free (a ++ b) = true.
+Proof.
+  induction a as [|x a IH]; intros Ha Hb He; [exact Hb|].
+  destruct a as [|y a'].
+  - cbn [app]. cbn [ends_gt] in He. destruct b as [|z b']; [reflexivity|]. cbn [gd_free]. rewrite He. cbn. exact Hb.
+  - cbn [app gd_free] in *. apply andb_prop in Ha as [H1 H2]. rewrite H1. cbn [andb]. apply IH; [exact H2|exact Hb|exact He].
+Qed.
+Lemma ends_gt_app a b : b <> [] -> ends_gt (a ++ b) = ends_gt b.
+Proof.
+  intros Hb. induction a as [|x a IH]; [reflexivity|]. cbn [app ends_gt]. destruct (a ++ b) eqn:E.
+  - destruct a; destruct b; try discriminate; congruence.
+  - exact IH.
+Qed.
+
+(* "good segment": no '>' '.' pair inside, does not end with '>' *)
+Definition G (l : list token) : Prop := gd_free l = true /\ ends_gt l = false.
+Lemma G_app a b : G a -> G b -> G (a ++ b).
+Proof.
+  intros [A1 A2] [B1 B2]. split; [apply gd_app; assumption|].
+  destruct b as [|z b']; [rewrite app_nil_r; exact A2|]. rewrite ends_gt_app by discriminate. exact B2.
+Qed.
+Lemma G_rest a rest : G a -> gd_free rest = true -> gd_free (a ++ rest) = true.
+Proof. intros [A1 A2] H. apply gd_app; assumption. Qed.
+Lemma G_cons t l : l <> [] -> (is_gt_tok t && is_dot_tok (hd t l)) = false -> G l -> G (t :: l).
+Proof.
+  intros Hne Hp [L1 L2]. destruct l as [|b l']; [congruence|]. split.
+  - cbn [gd_free]. cbn [hd] in Hp. rewrite Hp. cbn. exact L1.
+  - cbn [ends_gt]. exact L2.
+Qed.
+Lemma G_single t : is_gt_tok t = false -> G [t].
+Proof. intros H. split; [reflexivity|exact H]. Qed.
+Lemma G_paren l : G l -> G (paren l).
+Proof.
+  intros Hl. unfold paren. change (T K_LPAREN :: l ++ [T K_RPAREN]) with ([T K_LPAREN] ++ l ++ [T K_RPAREN]).
+  apply G_app; [apply G_single; reflexivity|]. apply G_app; [exact Hl|apply G_single; reflexivity].
+Qed.
+Lemma gd_cons_nongt t rest : is_gt_tok t = false -> gd_free rest = true -> gd_free (t :: rest) = true.
+Proof. intros Ht H. apply (G_rest [t] rest (G_single t Ht) H). Qed.
+
+Lemma first_ok_not_dot t : first_ok (pclass (tk t)) = true -> is_dot_tok t = false.
+Proof. unfold is_dot_tok. destruct (pclass (tk t)); cbn; congruence. Qed.
+
+Lemma G_pp_infix s : wf_sx s = true -> G (pp_infix s).
+Proof.
+  induction s using sx_ind'; intros Hwf.
+  - apply G_single; reflexivity.
+  - destruct b; apply G_single; reflexivity.
+  - apply G_single; reflexivity.
+  - unfold wf_sx in Hwf. cbn [forall_sub wf_node] in Hwf. apply andb_prop in Hwf as [Hop Hwf]. apply andb_prop in Hwf as [Hwa Hwb].
+    rewrite pp_infix_bin. apply G_app; [apply IHs1, Hwa|].
+    assert (Hr : G (rhs s2)) by (unfold rhs; destruct (is_bin s2); [apply G_paren|]; apply IHs2, Hwb).
+    assert (Hf : exists t r, rhs s2 = t :: r /\ is_dot_tok t = false).
+    { unfold rhs. destruct (is_bin s2); [eexists; eexists; split; reflexivity|].
+      destruct (pp_infix_first s2 Hwb) as (t & r & E & A & _). exists t, r. split; [exact E|apply first_ok_not_dot, A]. }
+    destruct Hf as (t & r & E & Hd). apply G_cons; [rewrite E; discriminate | rewrite E; cbn [hd]; rewrite Hd; apply andb_false_r | exact Hr].
+  - unfold wf_sx in Hwf. cbn [forall_sub wf_node] in Hwf. apply andb_prop in Hwf as [Hop Hwa].
+    rewrite pp_infix_un.
+    assert (Hr : G (rhs s)) by (unfold rhs; destruct (is_bin s); [apply G_paren|]; apply IHs, Hwa).
+    assert (Hne : rhs s <> []).
+    { unfold rhs. destruct (is_bin s); [discriminate|]. destruct (pp_infix_first s Hwa) as (t & r & E & _). rewrite E. discriminate. }
+    apply G_cons; [exact Hne | destruct op; try discriminate Hop; reflexivity | exact Hr].
+  - unfold wf_sx in Hwf. cbn [forall_sub wf_node] in Hwf. simpl in Hwf.
+    rewrite pp_infix_field. apply G_app.
+    + unfold obj. destruct (is_bin s || is_un s); [apply G_paren|]; apply IHs, Hwf.
+    + split; reflexivity.
+  - unfold wf_sx in Hwf. cbn [forall_sub wf_node] in Hwf. simpl in Hwf.
+    rewrite pp_infix_tidx. apply G_app.
+    + unfold obj. destruct (is_bin s || is_un s); [apply G_paren|]; apply IHs, Hwf.
+    + split; reflexivity.
+  - unfold wf_sx in Hwf. rewrite forall_sub_call in Hwf. cbn [wf_node andb] in Hwf. rewrite forallb_forall in Hwf.
+    rewrite pp_infix_call.
+    change (T K_LPAREN :: Tok K_IDENTIFIER f :: flat_map argp args ++ [T K_RPAREN])
+      with ([T K_LPAREN; Tok K_IDENTIFIER f] ++ flat_map argp args ++ [T K_RPAREN]).
+    apply G_app; [split; reflexivity|]. apply G_app; [|apply G_single; reflexivity].
+    induction args as [|a r IHr]; [split; reflexivity|]. cbn [flat_map]. inversion H; subst. apply G_app.
+    + unfold argp. cbv zeta. destruct (starts_with_minus (pp_infix a)); [apply G_paren|]; apply H2, Hwf; left; reflexivity.
+    + apply IHr; [exact H3|]. intros x Hx. apply Hwf. right; exact Hx.
+Qed.
+
+Lemma G_rhs s : wf_sx s = true -> G (rhs s).
+Proof. intros H. unfold rhs. destruct (is_bin s); [apply G_paren|]; apply G_pp_infix, H. Qed.
+Lemma G_argp s : wf_sx s = true -> G (argp s).
+Proof. intros H. unfold argp. cbv zeta. destruct (starts_with_minus (pp_infix s)); [apply G_paren|]; apply G_pp_infix, H. Qed.
+Lemma G_flat_argp l : Forall (fun a => wf_sx a = true) l -> G (flat_map argp l).
+Proof. induction 1; [split; reflexivity|]. cbn [flat_map]. apply G_app; [apply G_argp; assumption|assumption]. Qed.
+
 (* ---------------------------------------------------------------- what may follow *)
 Definition followv (o : option bytes) (ts : list token) : bool :=
   match curc ts with
   | P_LBRACE | P_DCOLON => false
-  | P_LT => negb (upper_opt o)
+  | P_LT => negb (upper_opt o && generic_args_ahead ts)
   | P_DOT => match peek ts 1, peek ts 2 with P_IDENT, P_LBRACE => false | _, _ => true end
   | _ => true
   end.
-Definition follow (s : sx) (ts : list token) : bool := followv (last_var s) ts.
+Definition is_dot_c (c : pk) : bool := match c with P_DOT => true | _ => false end.
+(* after a form that ends in an operand read by parse_operand a '.' would be taken by that operand *)
+Definition follow (s : sx) (ts : list token) : bool :=
+  followv (last_var s) ts && negb ((is_bin s || is_un s) && is_dot_c (curc ts)).
 Definition rhs_var (s : sx) : option bytes := if is_bin s then None else last_var s.
 
 Lemma stop_followv o ts : stop_c (curc ts) = true -> followv o ts = true.
 Proof. unfold followv. destruct (curc ts); simpl; congruence. Qed.
+Lemma stop_follow s ts : stop_c (curc ts) = true -> follow s ts = true.
+Proof. intros H. unfold follow. rewrite (stop_followv _ _ H). destruct (curc ts); simpl in *; try discriminate; rewrite ?andb_false_r; reflexivity. Qed.
 Lemma followv_not_lbrace o ts : followv o ts = true -> curc ts <> P_LBRACE.
 Proof. unfold followv. destruct (curc ts); congruence. Qed.
+Lemma follow_fst s ts : follow s ts = true -> followv (last_var s) ts = true.
+Proof. unfold follow. intros H. apply andb_prop in H as [H _]. exact H. Qed.
+Lemma follow_not_dot s ts : follow s ts = true -> is_bin s || is_un s = true -> curc ts <> P_DOT.
+Proof. unfold follow. intros H Hb. apply andb_prop in H as [_ H]. rewrite Hb in H. destruct (curc ts); cbn in H; congruence. Qed.
+Lemma follow_plain s ts : is_bin s || is_un s = false -> followv (last_var s) ts = true -> follow s ts = true.
+Proof. intros Hb H. unfold follow. rewrite H, Hb. reflexivity. Qed.
 Lemma followv_dot_ident o f R : curc R <> P_LBRACE -> followv o (T K_DOT :: Tok K_IDENTIFIER f :: R) = true.
 Proof. unfold followv, peek, curc. cbn [skipn cur tk T pclass]. destruct (pclass (cur R)); congruence. Qed.
 Lemma followv_dot_num o i R : followv o (T K_DOT :: Tok K_NUMBER i :: R) = true.
 Proof. reflexivity. Qed.
 Lemma followv_rparen o R : followv o (T K_RPAREN :: R) = true.
 Proof. reflexivity. Qed.
-Lemma pclass_lt op : pclass op = P_LT -> is_lt op = true.
-Proof. destruct op; simpl; congruence. Qed.
-Lemma followv_op o op R : is_infix_binary_op op = true -> is_lt op && upper_opt o = false -> followv o (T op :: R) = true.
+Lemma followv_op o op R : is_infix_binary_op op = true -> gd_free (T op :: R) = true -> followv o (T op :: R) = true.
 Proof.
   unfold followv, is_infix_binary_op, curc. cbn [cur tk T]. intros H1 H2.
   destruct (pclass op) eqn:E; try reflexivity; try discriminate H1.
-  rewrite (pclass_lt _ E) in H2. simpl in H2. rewrite H2. reflexivity.
+  unfold generic_args_ahead. rewrite (ga_false 256 0 _ H2). rewrite andb_false_r. reflexivity.
+Qed.
+Lemma follow_op s op R : is_infix_binary_op op = true -> gd_free (T op :: R) = true -> follow s (T op :: R) = true.
+Proof.
+  intros H1 H2. unfold follow. rewrite followv_op by assumption. unfold curc. cbn [cur tk T].
+  unfold is_infix_binary_op in H1. destruct (pclass op); cbn in H1; try discriminate H1; rewrite ?andb_false_r; reflexivity.
 Qed.
 
 Lemma ident_follow x rest err :
@@ -403,36 +534,35 @@ Proof.
     destruct (peek rest 1) eqn:E2; try (intros _; cbn; destruct (is_upper x); reflexivity).
     destruct (peek rest 2) eqn:E3; try discriminate; intros _; cbn;
       destruct (is_upper (peekv (Tok K_IDENTIFIER x :: rest) 2)); reflexivity.
-  - (* LT *) intros H. cbn. destruct (is_upper x); [discriminate H|reflexivity].
+  - (* LT *) intros H. cbn. apply negb_true_iff in H. rewrite H. destruct (is_upper x); reflexivity.
 Qed.
 
 (* ---------------------------------------------------------------- decomposition of wf / safe *)
 Lemma safe_bin op a b : infix_safe (SBin op a b) = true ->
-  infix_safe a = true /\ infix_safe b = true /\ is_postfix b = false /\ bad_group b = false /\ is_lt op && upper_opt (last_var a) = false.
+  infix_safe a = true /\ infix_safe b = true /\ bad_group b = false.
 Proof.
-  unfold infix_safe. cbn [forall_sub]. unfold node_ok at 1. cbn [ok_right ok_unary ok_group ok_lt].
+  unfold infix_safe. cbn [forall_sub]. unfold node_ok at 1. cbn [ok_group].
   rewrite !andb_true_iff, !negb_true_iff. tauto.
 Qed.
-Lemma safe_un op a : infix_safe (SUn op a) = true ->
-  infix_safe a = true /\ is_postfix a = false /\ bad_group a = false.
+Lemma safe_un op a : infix_safe (SUn op a) = true -> infix_safe a = true /\ bad_group a = false.
 Proof.
-  unfold infix_safe. cbn [forall_sub]. unfold node_ok at 1. cbn [ok_right ok_unary ok_group ok_lt].
+  unfold infix_safe. cbn [forall_sub]. unfold node_ok at 1. cbn [ok_group].
   rewrite !andb_true_iff, !negb_true_iff. tauto.
 Qed.
 Lemma safe_field a f : infix_safe (SField a f) = true -> infix_safe a = true /\ bad_group a = false.
 Proof.
-  unfold infix_safe. cbn [forall_sub]. unfold node_ok at 1. cbn [ok_right ok_unary ok_group ok_lt].
+  unfold infix_safe. cbn [forall_sub]. unfold node_ok at 1. cbn [ok_group].
   rewrite !andb_true_iff, !negb_true_iff. tauto.
 Qed.
 Lemma safe_tidx a i : infix_safe (STIdx a i) = true -> infix_safe a = true /\ bad_group a = false.
 Proof.
-  unfold infix_safe. cbn [forall_sub]. unfold node_ok at 1. cbn [ok_right ok_unary ok_group ok_lt].
+  unfold infix_safe. cbn [forall_sub]. unfold node_ok at 1. cbn [ok_group].
   rewrite !andb_true_iff, !negb_true_iff. tauto.
 Qed.
 Lemma safe_call f args : infix_safe (SCall f args) = true ->
   forallb infix_safe args = true /\ forallb (fun a => negb (bad_group a)) args = true.
 Proof.
-  unfold infix_safe. rewrite forall_sub_call. unfold node_ok at 1. cbn [ok_right ok_unary ok_group ok_lt].
+  unfold infix_safe. rewrite forall_sub_call. unfold node_ok at 1. cbn [ok_group].
   rewrite !andb_true_iff. tauto.
 Qed.
 Lemma wf_bin op a b : wf_sx (SBin op a b) = true -> is_infix_binary_op op = true /\ wf_sx a = true /\ wf_sx b = true.
@@ -446,24 +576,41 @@ Proof. unfold wf_sx. cbn [forall_sub wf_node]. rewrite !andb_true_iff. tauto. Qe
 Lemma wf_call f args : wf_sx (SCall f args) = true -> forallb wf_sx args = true.
 Proof. unfold wf_sx. rewrite forall_sub_call. cbn [wf_node]. rewrite !andb_true_iff. tauto. Qed.
 
+(* ---------------------------------------------------------------- the operand's own postfix loop *)
+Lemma odots_stop e ts : curc ts <> P_DOT -> odots e ts = (e, ts).
+Proof.
+  destruct ts as [|t r]; [reflexivity|]. unfold curc; cbn [cur odots]. intros H.
+  destruct (pclass (tk t)); try reflexivity. congruence.
+Qed.
+Lemma odots_field e f rest : curc rest <> P_LBRACE ->
+  odots e (T K_DOT :: Tok K_IDENTIFIER f :: rest) = odots (EField e f) rest.
+Proof. intros H. cbn [odots T tk pclass tv]. destruct (curc rest); try reflexivity. congruence. Qed.
+Lemma odots_tidx e i rest : odots e (T K_DOT :: Tok K_NUMBER i :: rest) = odots (ETIdx e (wrap32 (atoll i))) rest.
+Proof. reflexivity. Qed.
+
 (* ---------------------------------------------------------------- statements *)
 Definition nest_rhs (s : sx) : nat := if is_bin s then S (nest_infix s) else nest_infix s.
 
+(* parse_primary on the printed form leaves [st]; the loop of parse_expression, resp. the postfix loop of parse_operand,
+   then carries [c] over [st] to what the tree denotes *)
 Definition HI (s : sx) : Prop :=
-  forall d rest err, d + nest_infix s <= S MAXD -> follow s rest = true ->
+  forall d rest err, d + nest_infix s <= S MAXD -> follow s rest = true -> gd_free rest = true ->
   exists c st, ev (CPrim d (pp_infix s ++ rest) err) (Ok (Some c) (st ++ rest) err) /\
-               forall R e r, follow s R = true -> ev (CLoop d (denote s) R e) r -> ev (CLoop d c (st ++ R) e) r.
+               (forall R e r, follow s R = true -> gd_free R = true ->
+                              ev (CLoop d (denote s) R e) r -> ev (CLoop d c (st ++ R) e) r) /\
+               (is_bin s = false -> forall R, curc R <> P_LBRACE -> odots c (st ++ R) = odots (denote s) R).
 
-Definition PIrhs (s : sx) : Prop :=
-  forall d rest err, d + nest_rhs s <= S MAXD -> followv (rhs_var s) rest = true ->
-  ev (CPrim d (rhs s ++ rest) err) (Ok (Some (denote s)) rest err).
+(* the form as a right / unary operand (parenthesised when it is a binary operation), read by parse_operand *)
+Definition POp (s : sx) : Prop :=
+  forall d R e, d + nest_rhs s <= S MAXD -> followv (rhs_var s) R = true -> curc R <> P_DOT -> gd_free R = true ->
+  ev (COperand d (rhs s ++ R) e) (Ok (Some (denote s)) R e).
 
 Definition PGun (s : sx) : Prop :=
-  forall d rest err, d + S (nest_infix s) <= S MAXD ->
+  forall d rest err, d + S (nest_infix s) <= S MAXD -> gd_free rest = true ->
   ev (CPrim d (paren (pp_infix s) ++ rest) err) (Ok (Some (denote s)) rest err).
 
 Definition EI (s : sx) : Prop :=
-  forall d rest err, d + nest_infix s <= MAXD -> stop_c (curc rest) = true ->
+  forall d rest err, d + nest_infix s <= MAXD -> stop_c (curc rest) = true -> gd_free rest = true ->
   ev (CExpr d (pp_infix s ++ rest) err) (Ok (Some (denote s)) rest err).
 
 (* ---------------------------------------------------------------- generic steps *)
@@ -473,9 +620,6 @@ Proof.
   rewrite dots_stop by (destruct (curc rest); simpl in H; congruence).
   rewrite (stop_not_infix _ H). reflexivity.
 Qed.
-
-Lemma first_ok_not_if c : first_ok c = true -> match c with P_IF | P_CONDMATCH => False | _ => True end.
-Proof. destruct c; simpl; intros; try exact I; discriminate. Qed.
 
 (* parse_expression = parse_primary when the loop has nothing to do *)
 Lemma E_of_P d ts x rest err :
@@ -494,13 +638,15 @@ Proof.
   induction s using sx_ind'; cbn [nest_infix]; try lia;
     repeat match goal with |- context [if ?b then _ else _] => destruct b end; lia.
 Qed.
+Lemma nest_rhs_pos s : 1 <= nest_rhs s.
+Proof. unfold nest_rhs. pose proof (nest_infix_pos s). destruct (is_bin s); lia. Qed.
 
 Lemma EI_of_HI s : wf_sx s = true -> HI s -> EI s.
 Proof.
-  intros Hwf H d rest err Hd Hs.
+  intros Hwf H d rest err Hd Hs Hg.
   pose proof (nest_infix_pos s) as Hpos.
-  destruct (H (S d) rest err ltac:(lia) (stop_followv _ _ Hs)) as (c & st & [n Hn] & Heq).
-  destruct (Heq rest err _ (stop_followv _ _ Hs) (ev_loop_stop (S d) (denote s) rest err Hs)) as [m Hm].
+  destruct (H (S d) rest err ltac:(lia) (stop_follow _ _ Hs) Hg) as (c & st & [n Hn] & Heq & _).
+  destruct (Heq rest err _ (stop_follow _ _ Hs) Hg (ev_loop_stop (S d) (denote s) rest err Hs)) as [m Hm].
   destruct (pp_infix_first s Hwf) as (t & r & E & A & _).
   apply ev_body. exists (n + m). intros f Hle. cbn [body]. unfold expression_body.
   replace (Nat.ltb MAXD (S d)) with false by (symmetry; apply Nat.ltb_ge; lia).
@@ -526,10 +672,10 @@ Proof.
   intros [n Hn]. exists (S n). intros g Hg. destruct g; [lia|]. rewrite loop_tidx_eq. apply Hn. lia.
 Qed.
 
-(* one infix step of the loop *)
+(* one infix step of the loop: the right operand is read by parse_operand *)
 Lemma ev_loop_bin d x op b R e r :
   is_infix_binary_op op = true ->
-  ev (CPrim d (b ++ R) e) (Ok (Some (snd x)) R e) ->
+  ev (COperand d (b ++ R) e) (Ok (Some (snd x)) R e) ->
   ev (CLoop d (EOp op [fst x; snd x]) R e) r ->
   ev (CLoop d (fst x) (T op :: b ++ R) e) r.
 Proof.
@@ -539,16 +685,24 @@ Proof.
   cbn [cur tk T adv]. rewrite Hop. rewrite Hn by lia. apply Hm. lia.
 Qed.
 
+(* parse_operand = parse_primary when no '.' follows *)
+Lemma O_of_P d ts x R e : curc R <> P_DOT ->
+  ev (CPrim d ts e) (Ok (Some x) R e) -> ev (COperand d ts e) (Ok (Some x) R e).
+Proof.
+  intros Hd [n Hn]. apply ev_body. exists n. intros f Hf. cbn [body]. unfold operand_body.
+  rewrite Hn by lia. rewrite odots_stop by exact Hd. reflexivity.
+Qed.
+
 Lemma paren_app l rest : paren l ++ rest = T K_LPAREN :: l ++ T K_RPAREN :: rest.
 Proof. unfold paren. cbn [app]. rewrite <- app_assoc. reflexivity. Qed.
 
 (* '(' e ')' where e is a binary operation that does not begin with a unary operator: grouping *)
 Lemma group_bin s d rest err :
-  wf_sx s = true -> is_bin s = true -> lead_un s = false -> EI s -> d + S (nest_infix s) <= S MAXD ->
+  wf_sx s = true -> is_bin s = true -> lead_un s = false -> EI s -> d + S (nest_infix s) <= S MAXD -> gd_free rest = true ->
   ev (CPrim d (paren (pp_infix s) ++ rest) err) (Ok (Some (denote s)) rest err).
 Proof.
-  intros Hwf Hb Hl HE Hd. rewrite paren_app.
-  destruct (HE d (T K_RPAREN :: rest) err ltac:(lia) eq_refl) as [n Hn].
+  intros Hwf Hb Hl HE Hd Hg. rewrite paren_app.
+  destruct (HE d (T K_RPAREN :: rest) err ltac:(lia) eq_refl (gd_cons_nongt (T K_RPAREN) rest eq_refl Hg)) as [n Hn].
   destruct (pp_infix_first s Hwf) as (t & r & E & _ & A). specialize (A Hl).
   apply ev_body. exists n. intros f Hf. cbn [body]. unfold primary_body. cbn [tk T pclass].
   assert (Hc : curc (pp_infix s ++ T K_RPAREN :: rest) = pclass (tk t)) by (rewrite E; reflexivity).
@@ -566,12 +720,12 @@ Lemma ev_fail_end d mk acc rest err : ev (CFail d mk acc (T K_RPAREN :: rest) er
 Proof. apply ev_body. exists 0. intros. reflexivity. Qed.
 
 Lemma ev_nofail_step d mk acc l R err a r :
-  l <> [] -> at_rparen_or_eof (l ++ R) = false ->
+  at_rparen_or_eof (l ++ R) = false ->
   ev (CExpr d (l ++ R) err) (Ok (Some a) R err) ->
   ev (CNoFail d mk (acc ++ [a]) R err) r -> ev (CNoFail d mk acc (l ++ R) err) r.
 Proof.
-  intros Hl He [n Hn] [m Hm]. apply ev_body. exists (n + m). intros f Hf. cbn [body]. unfold nofail_body.
-  rewrite He, Hn by lia. rewrite length_app_neq by exact Hl. cbn [opt_expr]. apply Hm. lia.
+  intros He [n Hn] [m Hm]. apply ev_body. exists (n + m). intros f Hf. cbn [body]. unfold nofail_body.
+  rewrite He, Hn by lia. apply Hm. lia.
 Qed.
 Lemma ev_fail_step d mk acc l R err a r :
   at_rparen_or_eof (l ++ R) = false ->
@@ -589,35 +743,32 @@ Lemma pp_infix_nonempty s : wf_sx s = true -> pp_infix s <> [].
 Proof. intros H. destruct (pp_infix_first s H) as (t & r & E & _). rewrite E. discriminate. Qed.
 Lemma curc_pp_infix s rest : wf_sx s = true -> first_ok (curc (pp_infix s ++ rest)) = true.
 Proof. intros H. destruct (pp_infix_first s H) as (t & r & E & A & _). rewrite E. exact A. Qed.
-
-Lemma rhs_nonempty s : wf_sx s = true -> rhs s <> [].
-Proof. intros H. unfold rhs. destruct (is_bin s); [discriminate|apply pp_infix_nonempty, H]. Qed.
 Lemma curc_rhs s rest : wf_sx s = true -> first_ok (curc (rhs s ++ rest)) = true.
 Proof. intros H. unfold rhs. destruct (is_bin s); [reflexivity|apply curc_pp_infix, H]. Qed.
 
 (* parse_expression on a right-operand form followed by a stop token *)
 Definition ERhs (s : sx) : Prop :=
-  forall d rest err, d + nest_rhs s <= MAXD -> stop_c (curc rest) = true ->
+  forall d rest err, d + nest_rhs s <= MAXD -> stop_c (curc rest) = true -> gd_free rest = true ->
   ev (CExpr d (rhs s ++ rest) err) (Ok (Some (denote s)) rest err).
 
-Lemma ERhs_of s : wf_sx s = true -> (is_bin s = true -> PIrhs s) -> EI s -> ERhs s.
+Lemma ERhs_of s : wf_sx s = true -> bad_group s = false -> EI s -> ERhs s.
 Proof.
-  intros Hwf HP HE d rest err Hd Hs. unfold rhs, nest_rhs in *. destruct (is_bin s) eqn:Eb.
+  intros Hwf Hbg HE d rest err Hd Hs Hg. unfold rhs, nest_rhs in *. destruct (is_bin s) eqn:Eb.
   - apply E_of_P; [lia | reflexivity | exact Hs |].
-    specialize (HP eq_refl (S d) rest err). unfold rhs, nest_rhs, rhs_var in HP. rewrite Eb in HP. apply HP; [lia|].
-    apply stop_followv, Hs.
+    apply group_bin; [exact Hwf | exact Eb | | exact HE | lia | exact Hg].
+    unfold bad_group in Hbg. rewrite Eb in Hbg. exact Hbg.
   - apply HE; assumption.
 Qed.
 
 (* '(' op e ')' with op unary: the prefix form with one argument *)
 Lemma group_un op a d rest err :
-  is_unary_op op = true -> wf_sx a = true -> ERhs a -> d + S (nest_rhs a) <= S MAXD ->
+  is_unary_op op = true -> wf_sx a = true -> ERhs a -> d + S (nest_rhs a) <= S MAXD -> gd_free rest = true ->
   ev (CPrim d (paren (T op :: rhs a) ++ rest) err) (Ok (Some (EOp op [denote a])) rest err).
 Proof.
-  intros Hop Hwf HE Hd. rewrite paren_app. cbn [app].
+  intros Hop Hwf HE Hd Hg. rewrite paren_app. cbn [app].
   pose proof (unary_not_rparen _ Hop) as Hnr. pose proof (unary_is_prefix _ Hop) as Hpo.
   assert (Hnf : ev (CNoFail d (fun x => EOp op x) [] (rhs a ++ T K_RPAREN :: rest) err) (Ok (Some (EOp op [denote a])) rest err)).
-  { eapply ev_nofail_step; [apply rhs_nonempty, Hwf | apply first_ok_not_end, curc_rhs, Hwf | apply HE; [lia|reflexivity] |].
+  { eapply ev_nofail_step; [apply first_ok_not_end, curc_rhs, Hwf | apply HE; [lia|reflexivity|apply gd_cons_nongt; [reflexivity|exact Hg]] |].
     cbn [app]. apply ev_nofail_end. }
   destruct Hnf as [n Hn].
   apply ev_body. exists (S n). intros f Hf. destruct f as [|f]; [lia|].
@@ -628,7 +779,7 @@ Qed.
 
 Definition argnest (a : sx) : nat := if starts_with_minus (pp_infix a) then S (nest_infix a) else nest_infix a.
 Definition EArg (a : sx) : Prop :=
-  forall d rest err, d + argnest a <= MAXD -> stop_c (curc rest) = true ->
+  forall d rest err, d + argnest a <= MAXD -> stop_c (curc rest) = true -> gd_free rest = true ->
   ev (CExpr d (argp a ++ rest) err) (Ok (Some (denote a)) rest err).
 
 Definition arg_first (c : pk) : bool := match c with P_NUMBER | P_TRUE | P_FALSE | P_IDENT | P_LPAREN | P_NOT => true | _ => false end.
@@ -649,19 +800,22 @@ Proof. induction args as [|b r IH]; [intros []|]. intros [->|H]; cbn; [lia|]. sp
 Lemma anest_list_base args : 1 <= anest_list args.
 Proof. induction args; cbn; [lia|]. unfold anest_list in *. lia. Qed.
 
+Lemma gd_args r rest : Forall (fun a => wf_sx a = true) r -> gd_free rest = true -> gd_free (flat_map argp r ++ T K_RPAREN :: rest) = true.
+Proof. intros Hw Hg. apply G_rest; [apply G_flat_argp, Hw|apply gd_cons_nongt; [reflexivity|exact Hg]]. Qed.
+
 Lemma fail_list_infix args : Forall EArg args -> Forall (fun a => wf_sx a = true) args ->
-  forall d mk acc rest err, (forall a, In a args -> d + argnest a <= MAXD) ->
+  forall d mk acc rest err, (forall a, In a args -> d + argnest a <= MAXD) -> gd_free rest = true ->
   ev (CFail d mk acc (flat_map argp args ++ T K_RPAREN :: rest) err) (Ok (Some (mk (acc ++ map denote args))) rest err).
 Proof.
-  induction 1 as [|a r Ha Hr IH]; intros Hwf d mk acc rest err Hd.
+  induction 1 as [|a r Ha Hr IH]; intros Hwf d mk acc rest err Hd Hg.
   - cbn [flat_map map app]. rewrite app_nil_r. apply ev_fail_end.
   - inversion Hwf as [|? ? Hwa Hwr]; subst. cbn [flat_map map]. rewrite <- app_assoc.
     eapply ev_fail_step.
     + apply arg_first_not_end, argp_first, Hwa.
-    + apply Ha; [apply Hd; left; reflexivity|].
+    + apply Ha; [apply Hd; left; reflexivity| |apply gd_args; assumption].
       destruct r as [|b r']; [reflexivity|]. inversion Hwr; subst. cbn [flat_map]. rewrite <- app_assoc. apply arg_first_stop, argp_first. assumption.
     + replace (acc ++ denote a :: map denote r) with ((acc ++ [denote a]) ++ map denote r) by (rewrite <- app_assoc; reflexivity).
-      apply IH; [exact Hwr | intros; apply Hd; right; assumption].
+      apply IH; [exact Hwr | intros; apply Hd; right; assumption | exact Hg].
 Qed.
 
 Lemma nest_infix_call f args : nest_infix (SCall f args) = S (anest_list args).
@@ -669,18 +823,32 @@ Proof. reflexivity. Qed.
 
 Definition Q (s : sx) : Prop :=
   wf_sx s = true -> infix_safe s = true ->
-  HI s /\ (is_postfix s = false -> bad_group s = false -> PIrhs s) /\ (is_un s = true -> PGun s).
+  HI s /\ (bad_group s = false -> POp s) /\ (is_un s = true -> PGun s).
 
+(* a form that parse_primary reads completely *)
 Lemma HI_of_prim s :
-  (forall d rest err, d + nest_infix s <= S MAXD -> follow s rest = true ->
+  (forall d rest err, d + nest_infix s <= S MAXD -> follow s rest = true -> gd_free rest = true ->
      ev (CPrim d (pp_infix s ++ rest) err) (Ok (Some (denote s)) rest err)) -> HI s.
 Proof.
-  intros H d rest err Hd Hf. exists (denote s), []. split; [apply H; assumption|]. intros R e r _ Hr. exact Hr.
+  intros H d rest err Hd Hf Hg. exists (denote s), []. split; [apply H; assumption|]. split.
+  - intros R e r _ _ Hr. exact Hr.
+  - intros _ R _. reflexivity.
+Qed.
+
+(* a non-binary form as operand: parse_primary, then the operand's postfix loop takes what parse_primary left *)
+Lemma POp_of_HI s : is_bin s = false -> HI s -> POp s.
+Proof.
+  intros Hb H d R e Hd Hf Hnd Hg. unfold rhs, nest_rhs, rhs_var in *. rewrite Hb in Hd, Hf |- *.
+  assert (Hfo : follow s R = true).
+  { unfold follow. rewrite Hf. destruct (curc R); try congruence; rewrite ?andb_false_r; reflexivity. }
+  destruct (H d R e Hd Hfo Hg) as (c & st & [n Hn] & _ & Hod).
+  apply ev_body. exists n. intros f Hle. cbn [body]. unfold operand_body. rewrite Hn by lia.
+  rewrite (Hod Hb R (followv_not_lbrace _ _ Hf)). rewrite odots_stop by exact Hnd. reflexivity.
 Qed.
 
 Lemma EArg_of a : wf_sx a = true -> infix_safe a = true -> bad_group a = false -> Q a -> EArg a.
 Proof.
-  intros Hwf Hsafe Hbg HQ d rest err Hd Hs. destruct (HQ Hwf Hsafe) as (HH & HP & HG).
+  intros Hwf Hsafe Hbg HQ d rest err Hd Hs Hg. destruct (HQ Hwf Hsafe) as (HH & HP & HG).
   unfold argp, argnest in *. cbv zeta. destruct (starts_with_minus (pp_infix a)) eqn:E.
   - (* starts with '-': a is a unary node, printed in parentheses *)
     assert (Hl : lead_un a = true).
@@ -688,7 +856,7 @@ Proof.
       rewrite Et in E. unfold starts_with_minus, curc in E. cbn [cur] in E. destruct (pclass (tk t)); simpl in A; discriminate. }
     assert (Hu : is_un a = true).
     { unfold bad_group in Hbg. rewrite Hl, andb_true_r in Hbg. destruct a; try discriminate; reflexivity. }
-    apply E_of_P; [lia | reflexivity | exact Hs |]. apply HG; [exact Hu | lia].
+    apply E_of_P; [lia | reflexivity | exact Hs |]. apply HG; [exact Hu | lia | exact Hg].
   - apply (EI_of_HI a Hwf HH); assumption.
 Qed.
 
@@ -698,86 +866,121 @@ Proof.
   - (* SNum *)
     assert (HPr : forall d rest err, ev (CPrim d (pp_infix (SNum z) ++ rest) err) (Ok (Some (denote (SNum z))) rest err)).
     { intros. apply ev_body. exists 0. intros. reflexivity. }
-    split; [apply HI_of_prim; intros; apply HPr|]. split; [|discriminate]. intros _ _ d rest err _ _. apply HPr.
+    assert (HH : HI (SNum z)) by (apply HI_of_prim; intros; apply HPr).
+    split; [exact HH|]. split; [|discriminate]. intros _. apply POp_of_HI; [reflexivity|exact HH].
   - (* SBool *)
     assert (HPr : forall d rest err, ev (CPrim d (pp_infix (SBool b) ++ rest) err) (Ok (Some (denote (SBool b))) rest err)).
     { intros. apply ev_body. exists 0. intros. destruct b; reflexivity. }
-    split; [apply HI_of_prim; intros; apply HPr|]. split; [|discriminate]. intros _ _ d rest err _ _. apply HPr.
+    assert (HH : HI (SBool b)) by (apply HI_of_prim; intros; apply HPr).
+    split; [exact HH|]. split; [|discriminate]. intros _. apply POp_of_HI; [reflexivity|exact HH].
   - (* SVar *)
-    assert (HPr : forall d rest err, followv (Some x) rest = true -> ev (CPrim d (pp_infix (SVar x) ++ rest) err) (Ok (Some (denote (SVar x))) rest err)).
-    { intros d rest err Hf. apply ev_body. exists 0. intros. cbn [body pp_infix app]. unfold primary_body. cbn [tk pclass]. apply ident_follow, Hf. }
-    split; [apply HI_of_prim; intros; apply HPr; assumption|]. split; [|discriminate]. intros _ _ d rest err _ Hf. apply HPr, Hf.
+    assert (HH : HI (SVar x)).
+    { apply HI_of_prim. intros d rest err _ Hf _. apply ev_body. exists 0. intros. cbn [body pp_infix app]. unfold primary_body. cbn [tk pclass].
+      apply ident_follow. apply follow_fst in Hf. exact Hf. }
+    split; [exact HH|]. split; [|discriminate]. intros _. apply POp_of_HI; [reflexivity|exact HH].
   - (* SBin *)
-    destruct (wf_bin _ _ _ Hwf) as (Hop & Hwa & Hwb). destruct (safe_bin _ _ _ Hsafe) as (Hsa & Hsb & Hpb & Hgb & Hlt).
-    destruct (IHs1 Hwa Hsa) as (HIa & _ & _). destruct (IHs2 Hwb Hsb) as (HIb & HPb & _). specialize (HPb Hpb Hgb).
+    destruct (wf_bin _ _ _ Hwf) as (Hop & Hwa & Hwb). destruct (safe_bin _ _ _ Hsafe) as (Hsa & Hsb & Hgb).
+    destruct (IHs1 Hwa Hsa) as (HIa & _ & _). destruct (IHs2 Hwb Hsb) as (HIb & HPb & _). specialize (HPb Hgb).
     assert (HH : HI (SBin op s1 s2)).
-    { intros d rest err Hd Hf. cbn [nest_infix] in Hd. fold (nest_rhs s2) in Hd.
+    { intros d rest err Hd Hf Hg. cbn [nest_infix] in Hd. fold (nest_rhs s2) in Hd.
       rewrite pp_infix_bin. rewrite <- app_assoc. cbn [app].
-      destruct (HIa d (T op :: rhs s2 ++ rest) err ltac:(lia)) as (c & st & Hprim & Heq).
-      { apply followv_op; assumption. }
-      exists c, (st ++ T op :: rhs s2). split; [rewrite <- app_assoc; exact Hprim|].
-      intros R e r HfR Hr. rewrite <- app_assoc. cbn [app]. apply Heq; [apply followv_op; assumption|].
+      assert (Hg1 : forall R, gd_free R = true -> gd_free (T op :: rhs s2 ++ R) = true).
+      { intros R HR. change (T op :: rhs s2 ++ R) with ((T op :: rhs s2) ++ R). apply G_rest; [|exact HR].
+        pose proof (G_pp_infix (SBin op (SNum []) s2)) as HG. rewrite pp_infix_bin in HG. cbn [pp_infix app] in HG.
+        assert (Hw : wf_sx (SBin op (SNum []) s2) = true) by (unfold wf_sx in *; cbn [forall_sub wf_node]; rewrite Hop; cbn; exact Hwb).
+        destruct (HG Hw) as [G1 G2]. split.
+        - apply (gd_free_tl _ _ G1).
+        - destruct (rhs s2) eqn:Er; [cbn in G2 |- *; exact G2|]. cbn [ends_gt] in G2 |- *. exact G2. }
+      destruct (HIa d (T op :: rhs s2 ++ rest) err ltac:(lia)) as (c & st & Hprim & Heq & _).
+      { apply follow_op; [exact Hop|apply Hg1, Hg]. }
+      { apply Hg1, Hg. }
+      exists c, (st ++ T op :: rhs s2). split; [rewrite <- app_assoc; exact Hprim|]. split; [|discriminate].
+      intros R e r HfR HgR Hr. rewrite <- app_assoc. cbn [app]. apply Heq; [apply follow_op; [exact Hop|apply Hg1, HgR] | apply Hg1, HgR |].
       apply (ev_loop_bin d (denote s1, denote s2) op (rhs s2) R e r Hop); [|exact Hr].
-      apply HPb; [lia|]. exact HfR. }
+      apply HPb; [lia | | apply (follow_not_dot _ _ HfR); reflexivity | exact HgR].
+      apply follow_fst in HfR. exact HfR. }
     split; [exact HH|]. split; [|discriminate].
-    intros _ Hbg d rest err Hd _. unfold rhs, nest_rhs in *. cbn [is_bin] in *.
-    apply group_bin; [exact Hwf | reflexivity | | apply EI_of_HI; assumption | exact Hd].
+    intros Hbg d R e Hd _ Hnd Hg. unfold rhs, nest_rhs in *. cbn [is_bin] in *.
+    apply O_of_P; [exact Hnd|].
+    apply group_bin; [exact Hwf | reflexivity | | apply EI_of_HI; assumption | exact Hd | exact Hg].
     unfold bad_group in Hbg. cbn [is_bin andb] in Hbg. exact Hbg.
   - (* SUn *)
-    destruct (wf_un _ _ Hwf) as (Hop & Hwa). destruct (safe_un _ _ Hsafe) as (Hsa & Hpa & Hga).
-    destruct (IHs Hwa Hsa) as (HIa & HPa & _). specialize (HPa Hpa Hga).
-    assert (HPr : forall d rest err, d + nest_infix (SUn op s) <= S MAXD -> follow (SUn op s) rest = true ->
+    destruct (wf_un _ _ Hwf) as (Hop & Hwa). destruct (safe_un _ _ Hsafe) as (Hsa & Hga).
+    destruct (IHs Hwa Hsa) as (HIa & HPa & _). specialize (HPa Hga).
+    assert (HPr : forall d rest err, d + nest_infix (SUn op s) <= S MAXD -> follow (SUn op s) rest = true -> gd_free rest = true ->
                   ev (CPrim d (pp_infix (SUn op s) ++ rest) err) (Ok (Some (denote (SUn op s))) rest err)).
-    { intros d rest err Hd Hf. cbn [nest_infix] in Hd. fold (nest_rhs s) in Hd. rewrite pp_infix_un. cbn [app].
-      destruct (HPa d rest err Hd Hf) as [n Hn].
-      apply ev_body. exists n. intros f Hle. cbn [body]. unfold primary_body. cbn [tk T]. rewrite Hn by lia.
+    { intros d rest err Hd Hf Hg. cbn [nest_infix] in Hd. fold (nest_rhs s) in Hd. rewrite pp_infix_un. cbn [app].
+      pose proof (nest_rhs_pos s) as Hp1.
+      destruct (HPa (S d) rest err ltac:(lia)) as [n Hn].
+      { apply follow_fst in Hf. exact Hf. }
+      { apply (follow_not_dot _ _ Hf). reflexivity. }
+      { exact Hg. }
+      apply ev_body. exists n. intros f Hle. cbn [body]. unfold primary_body. cbn [tk T].
+      replace (Nat.ltb MAXD (S d)) with false by (symmetry; apply Nat.ltb_ge; lia).
+      rewrite Hn by lia.
       destruct op; try discriminate Hop; reflexivity. }
-    split; [apply HI_of_prim, HPr|]. split.
-    + intros _ _ d rest err Hd Hf. unfold rhs, nest_rhs, rhs_var in *. cbn [is_bin] in *. apply HPr; assumption.
-    + intros _ d rest err Hd. rewrite pp_infix_un. cbn [nest_infix] in Hd. fold (nest_rhs s) in Hd.
-      apply group_un; [exact Hop | exact Hwa | | exact Hd].
-      apply ERhs_of; [exact Hwa | intros _; exact HPa | apply EI_of_HI; assumption].
+    assert (HH : HI (SUn op s)) by (apply HI_of_prim, HPr).
+    split; [exact HH|]. split.
+    + intros _. apply POp_of_HI; [reflexivity|exact HH].
+    + intros _ d rest err Hd Hg. rewrite pp_infix_un. cbn [nest_infix] in Hd. fold (nest_rhs s) in Hd.
+      apply group_un; [exact Hop | exact Hwa | | lia | exact Hg].
+      apply ERhs_of; [exact Hwa | exact Hga | apply EI_of_HI; assumption].
   - (* SField *)
     pose proof (wf_field _ _ Hwf) as Hwa. destruct (safe_field _ _ Hsafe) as (Hsa & Hga).
     destruct (IHs Hwa Hsa) as (HIa & HPa & HGa).
-    split; [|split; discriminate].
-    intros d rest err Hd Hf. cbn [nest_infix] in Hd. rewrite pp_infix_field. unfold obj. rewrite <- app_assoc. cbn [app].
-    pose proof (followv_not_lbrace _ _ Hf) as Hnl.
-    destruct (is_bin s || is_un s) eqn:Epar.
-    + (* parenthesised object *)
-      assert (Hprim : ev (CPrim d (paren (pp_infix s) ++ T K_DOT :: Tok K_IDENTIFIER f :: rest) err)
-                         (Ok (Some (denote s)) (T K_DOT :: Tok K_IDENTIFIER f :: rest) err)).
-      { destruct (is_bin s) eqn:Eb.
-        - specialize (HPa ltac:(destruct s; try discriminate; reflexivity) Hga d (T K_DOT :: Tok K_IDENTIFIER f :: rest) err).
-          unfold rhs, nest_rhs, rhs_var in HPa. rewrite Eb in HPa. apply HPa; [exact Hd|apply followv_dot_ident, Hnl].
-        - cbn [orb] in Epar. apply HGa; [exact Epar|exact Hd]. }
-      exists (denote s), [T K_DOT; Tok K_IDENTIFIER f]. split; [exact Hprim|].
-      intros R e r HfR Hr. cbn [app]. apply ev_loop_field; [apply (followv_not_lbrace _ _ HfR)|exact Hr].
-    + destruct (HIa d (T K_DOT :: Tok K_IDENTIFIER f :: rest) err Hd) as (c & st & Hprim & Heq).
-      { apply followv_dot_ident, Hnl. }
-      exists c, (st ++ [T K_DOT; Tok K_IDENTIFIER f]). split; [rewrite <- app_assoc; exact Hprim|].
-      intros R e r HfR Hr. rewrite <- app_assoc. cbn [app].
-      pose proof (followv_not_lbrace _ _ HfR) as HnR.
-      apply Heq; [apply followv_dot_ident, HnR|]. apply ev_loop_field; [exact HnR|exact Hr].
+    assert (HH : HI (SField s f)).
+    { intros d rest err Hd Hf Hg. cbn [nest_infix] in Hd. rewrite pp_infix_field. unfold obj. rewrite <- app_assoc. cbn [app].
+      apply follow_fst in Hf. pose proof (followv_not_lbrace _ _ Hf) as Hnl.
+      assert (Hg2 : forall R, gd_free R = true -> gd_free (T K_DOT :: Tok K_IDENTIFIER f :: R) = true).
+      { intros R HR. apply gd_cons_nongt; [reflexivity|]. apply gd_cons_nongt; [reflexivity|exact HR]. }
+      destruct (is_bin s || is_un s) eqn:Epar.
+      + (* parenthesised object *)
+        assert (Hprim : ev (CPrim d (paren (pp_infix s) ++ T K_DOT :: Tok K_IDENTIFIER f :: rest) err)
+                           (Ok (Some (denote s)) (T K_DOT :: Tok K_IDENTIFIER f :: rest) err)).
+        { destruct (is_bin s) eqn:Eb.
+          - apply group_bin; [exact Hwa | exact Eb | | apply EI_of_HI; assumption | exact Hd | apply Hg2, Hg].
+            unfold bad_group in Hga. rewrite Eb in Hga. exact Hga.
+          - cbn [orb] in Epar. apply HGa; [exact Epar | exact Hd | apply Hg2, Hg]. }
+        exists (denote s), [T K_DOT; Tok K_IDENTIFIER f]. split; [exact Hprim|]. split.
+        * intros R e r HfR _ Hr. cbn [app]. apply follow_fst in HfR. apply ev_loop_field; [apply (followv_not_lbrace _ _ HfR)|exact Hr].
+        * intros _ R HR. cbn [app denote]. apply odots_field, HR.
+      + assert (Hbs : is_bin s = false) by (destruct (is_bin s); [discriminate Epar|reflexivity]).
+        destruct (HIa d (T K_DOT :: Tok K_IDENTIFIER f :: rest) err Hd) as (c & st & Hprim & Heq & Hod).
+        { apply follow_plain; [exact Epar|apply followv_dot_ident, Hnl]. }
+        { apply Hg2, Hg. }
+        exists c, (st ++ [T K_DOT; Tok K_IDENTIFIER f]). split; [rewrite <- app_assoc; exact Hprim|]. split.
+        * intros R e r HfR HgR Hr. rewrite <- app_assoc. cbn [app]. apply follow_fst in HfR.
+          pose proof (followv_not_lbrace _ _ HfR) as HnR.
+          apply Heq; [apply follow_plain; [exact Epar|apply followv_dot_ident, HnR] | apply Hg2, HgR |].
+          apply ev_loop_field; [exact HnR|exact Hr].
+        * intros _ R HR. rewrite <- app_assoc. cbn [app denote]. rewrite (Hod Hbs) by (cbn; discriminate). apply odots_field, HR. }
+    split; [exact HH|]. split; [|discriminate]. intros _. apply POp_of_HI; [reflexivity|exact HH].
   - (* STIdx *)
     pose proof (wf_tidx _ _ Hwf) as Hwa. destruct (safe_tidx _ _ Hsafe) as (Hsa & Hga).
     destruct (IHs Hwa Hsa) as (HIa & HPa & HGa).
-    split; [|split; discriminate].
-    intros d rest err Hd Hf. cbn [nest_infix] in Hd. rewrite pp_infix_tidx. unfold obj. rewrite <- app_assoc. cbn [app].
-    destruct (is_bin s || is_un s) eqn:Epar.
-    + assert (Hprim : ev (CPrim d (paren (pp_infix s) ++ T K_DOT :: Tok K_NUMBER i :: rest) err)
-                         (Ok (Some (denote s)) (T K_DOT :: Tok K_NUMBER i :: rest) err)).
-      { destruct (is_bin s) eqn:Eb.
-        - specialize (HPa ltac:(destruct s; try discriminate; reflexivity) Hga d (T K_DOT :: Tok K_NUMBER i :: rest) err).
-          unfold rhs, nest_rhs, rhs_var in HPa. rewrite Eb in HPa. apply HPa; [exact Hd|reflexivity].
-        - cbn [orb] in Epar. apply HGa; [exact Epar|exact Hd]. }
-      exists (denote s), [T K_DOT; Tok K_NUMBER i]. split; [exact Hprim|].
-      intros R e r HfR Hr. cbn [app]. apply ev_loop_tidx. exact Hr.
-    + destruct (HIa d (T K_DOT :: Tok K_NUMBER i :: rest) err Hd) as (c & st & Hprim & Heq).
-      { reflexivity. }
-      exists c, (st ++ [T K_DOT; Tok K_NUMBER i]). split; [rewrite <- app_assoc; exact Hprim|].
-      intros R e r HfR Hr. rewrite <- app_assoc. cbn [app].
-      apply Heq; [reflexivity|]. apply ev_loop_tidx. exact Hr.
+    assert (HH : HI (STIdx s i)).
+    { intros d rest err Hd Hf Hg. cbn [nest_infix] in Hd. rewrite pp_infix_tidx. unfold obj. rewrite <- app_assoc. cbn [app].
+      assert (Hg2 : forall R, gd_free R = true -> gd_free (T K_DOT :: Tok K_NUMBER i :: R) = true).
+      { intros R HR. apply gd_cons_nongt; [reflexivity|]. apply gd_cons_nongt; [reflexivity|exact HR]. }
+      destruct (is_bin s || is_un s) eqn:Epar.
+      + assert (Hprim : ev (CPrim d (paren (pp_infix s) ++ T K_DOT :: Tok K_NUMBER i :: rest) err)
+                           (Ok (Some (denote s)) (T K_DOT :: Tok K_NUMBER i :: rest) err)).
+        { destruct (is_bin s) eqn:Eb.
+          - apply group_bin; [exact Hwa | exact Eb | | apply EI_of_HI; assumption | exact Hd | apply Hg2, Hg].
+            unfold bad_group in Hga. rewrite Eb in Hga. exact Hga.
+          - cbn [orb] in Epar. apply HGa; [exact Epar | exact Hd | apply Hg2, Hg]. }
+        exists (denote s), [T K_DOT; Tok K_NUMBER i]. split; [exact Hprim|]. split.
+        * intros R e r _ _ Hr. cbn [app]. apply ev_loop_tidx. exact Hr.
+        * intros _ R _. reflexivity.
+      + assert (Hbs : is_bin s = false) by (destruct (is_bin s); [discriminate Epar|reflexivity]).
+        destruct (HIa d (T K_DOT :: Tok K_NUMBER i :: rest) err Hd) as (c & st & Hprim & Heq & Hod).
+        { apply follow_plain; [exact Epar|reflexivity]. }
+        { apply Hg2, Hg. }
+        exists c, (st ++ [T K_DOT; Tok K_NUMBER i]). split; [rewrite <- app_assoc; exact Hprim|]. split.
+        * intros R e r _ HgR Hr. rewrite <- app_assoc. cbn [app].
+          apply Heq; [apply follow_plain; [exact Epar|reflexivity] | apply Hg2, HgR |]. apply ev_loop_tidx. exact Hr.
+        * intros _ R HR. rewrite <- app_assoc. cbn [app denote]. rewrite (Hod Hbs) by (cbn; discriminate). reflexivity. }
+    split; [exact HH|]. split; [|discriminate]. intros _. apply POp_of_HI; [reflexivity|exact HH].
   - (* SCall *)
     pose proof (wf_call _ _ Hwf) as Hwargs. destruct (safe_call _ _ Hsafe) as (Hsargs & Hgargs).
     rewrite forallb_forall in Hwargs, Hsargs, Hgargs.
@@ -785,9 +988,9 @@ Proof.
     { rewrite Forall_forall in *. intros a Ha. apply EArg_of; [apply Hwargs, Ha | apply Hsargs, Ha | | apply H, Ha].
       specialize (Hgargs a Ha). apply negb_true_iff in Hgargs. exact Hgargs. }
     assert (HWA : Forall (fun a => wf_sx a = true) args) by (rewrite Forall_forall; exact Hwargs).
-    assert (HPr : forall d rest err, d + nest_infix (SCall f args) <= S MAXD ->
+    assert (HPr : forall d rest err, d + nest_infix (SCall f args) <= S MAXD -> gd_free rest = true ->
                   ev (CPrim d (pp_infix (SCall f args) ++ rest) err) (Ok (Some (denote (SCall f args))) rest err)).
-    { intros d rest err Hd. rewrite nest_infix_call in Hd.
+    { intros d rest err Hd Hg. rewrite nest_infix_call in Hd.
       rewrite pp_infix_call. cbn [app]. rewrite <- app_assoc. cbn [app].
       pose proof (anest_list_base args) as Hb1.
       assert (Hid : ev (CExpr d (Tok K_IDENTIFIER f :: flat_map argp args ++ T K_RPAREN :: rest) err)
@@ -800,17 +1003,17 @@ Proof.
       destruct Hid as [n Hn].
       assert (Hfl : ev (CFail d (fun a0 => ECall f a0) [] (flat_map argp args ++ T K_RPAREN :: rest) err)
                        (Ok (Some (ECall f ([] ++ map denote args))) rest err)).
-      { apply fail_list_infix; [exact HEA | exact HWA |]. intros a Ha. pose proof (anest_list_le args a Ha). lia. }
+      { apply fail_list_infix; [exact HEA | exact HWA | | exact Hg]. intros a Ha. pose proof (anest_list_le args a Ha). lia. }
       destruct Hfl as [m Hm].
-      apply ev_body. exists (n + m). intros g Hg. cbn [body]. unfold primary_body. cbn [tk T pclass curc cur].
+      apply ev_body. exists (n + m). intros g Hgf. cbn [body]. unfold primary_body. cbn [tk T pclass curc cur].
       cbn [is_prefix_operator is_prefix_operator_c is_infix_c pclass]. unfold paren_body. rewrite Hn by lia.
       destruct args as [|a r]; [reflexivity|].
       assert (Hst : arg_first (curc (flat_map argp (a :: r) ++ T K_RPAREN :: rest)) = true).
       { cbn [flat_map]. rewrite <- app_assoc. apply argp_first. apply Hwargs. left; reflexivity. }
       rewrite Hm by lia. cbn [denote app].
       destruct (curc (flat_map argp (a :: r) ++ T K_RPAREN :: rest)); simpl in Hst; try discriminate; reflexivity. }
-    split; [apply HI_of_prim; intros; apply HPr; assumption|]. split; [|discriminate].
-    intros _ _ d rest err Hd _. unfold rhs, nest_rhs in *. cbn [is_bin] in *. apply HPr, Hd.
+    assert (HH : HI (SCall f args)) by (apply HI_of_prim; intros; apply HPr; assumption).
+    split; [exact HH|]. split; [|discriminate]. intros _. apply POp_of_HI; [reflexivity|exact HH].
 Qed.
 
 (* ================================================================ 4. consequences *)
@@ -860,85 +1063,64 @@ Proof.
 Qed.
 
 Lemma infix_roundtrip s rest :
-  wf_sx s = true -> infix_safe s = true -> nest_infix s <= MAXD -> stop_c (curc rest) = true ->
+  wf_sx s = true -> infix_safe s = true -> nest_infix s <= MAXD -> stop_c (curc rest) = true -> gd_free rest = true ->
   exists n, forall fuel, n <= fuel -> parse_expression fuel 0 (pp_infix s ++ rest) false = Ok (Some (denote s)) rest false.
 Proof.
-  intros Hwf Hsafe Hn Hs. destruct (Q_all s Hwf Hsafe) as (HH & _ & _).
-  apply (EI_of_HI s Hwf HH 0 rest false); [lia|exact Hs].
+  intros Hwf Hsafe Hn Hs Hg. destruct (Q_all s Hwf Hsafe) as (HH & _ & _).
+  apply (EI_of_HI s Hwf HH 0 rest false); [lia|exact Hs|exact Hg].
 Qed.
 
 Lemma infix_roundtrip_parse s rest :
-  wf_sx s = true -> infix_safe s = true -> nest_infix s <= MAXD -> stop_c (curc rest) = true ->
+  wf_sx s = true -> infix_safe s = true -> nest_infix s <= MAXD -> stop_c (curc rest) = true -> gd_free rest = true ->
   parse (pp_infix s ++ rest) <> OutOfFuel -> parse (pp_infix s ++ rest) = Ok (Some (denote s)) rest false.
 Proof.
-  intros Hwf Hsafe Hn Hs Hf. apply ev_run; [|exact Hf]. apply (infix_roundtrip s rest Hwf Hsafe Hn Hs).
-Qed.
-
-(* --- left associativity, postfix on the left operand, unary on the left operand: instances of the round trip *)
-Definition is_atom (s : sx) : bool := match s with SNum _ | SBool _ | SVar _ => true | _ => false end.
-Definition lt_ok (op : kind) (x : sx) : bool := negb (is_lt op && upper_opt (last_var x)).
-
-Lemma safe_left_assoc op1 op2 a b c :
-  is_atom a = true -> is_atom b = true -> is_atom c = true -> lt_ok op1 a = true -> lt_ok op2 b = true ->
-  infix_safe (SBin op2 (SBin op1 a b) c) = true.
-Proof.
-  unfold lt_ok. intros Ha Hb Hc H1 H2.
-  destruct a; try discriminate Ha; destruct b; try discriminate Hb; destruct c; try discriminate Hc;
-    unfold infix_safe; cbn [forall_sub node_ok ok_right ok_unary ok_group ok_lt is_postfix bad_group is_bin lead_un last_var andb negb] in *;
-    rewrite ?H1, ?H2; reflexivity.
-Qed.
-
-Lemma wf_left_assoc op1 op2 a b c :
-  is_atom a = true -> is_atom b = true -> is_atom c = true -> is_infix_binary_op op1 = true -> is_infix_binary_op op2 = true ->
-  wf_sx (SBin op2 (SBin op1 a b) c) = true.
-Proof.
-  intros Ha Hb Hc H1 H2.
-  destruct a; try discriminate Ha; destruct b; try discriminate Hb; destruct c; try discriminate Hc;
-    unfold wf_sx; cbn [forall_sub wf_node]; rewrite H1, H2; reflexivity.
-Qed.
-
-Lemma nest_left_assoc op1 op2 a b c :
-  is_atom a = true -> is_atom b = true -> is_atom c = true -> nest_infix (SBin op2 (SBin op1 a b) c) = 1.
-Proof.
-  intros Ha Hb Hc. destruct a; try discriminate Ha; destruct b; try discriminate Hb; destruct c; try discriminate Hc; reflexivity.
-Qed.
-
-Lemma MAXD_pos : 1 <= MAXD.
-Proof. unfold MAXD, MAX_RECURSION_DEPTH. lia. Qed.
-
-Lemma left_assoc op1 op2 a b c rest :
-  is_atom a = true -> is_atom b = true -> is_atom c = true ->
-  is_infix_binary_op op1 = true -> is_infix_binary_op op2 = true -> lt_ok op1 a = true -> lt_ok op2 b = true ->
-  stop_c (curc rest) = true ->
-  exists n, forall fuel, n <= fuel ->
-    parse_expression fuel 0 (pp_infix a ++ T op1 :: pp_infix b ++ T op2 :: pp_infix c ++ rest) false
-    = Ok (Some (EOp op2 [EOp op1 [denote a; denote b]; denote c])) rest false.
-Proof.
-  intros Ha Hb Hc H1 H2 L1 L2 Hs.
-  destruct (infix_roundtrip (SBin op2 (SBin op1 a b) c) rest) as [n Hn].
-  - apply wf_left_assoc; assumption.
-  - apply safe_left_assoc; assumption.
-  - rewrite nest_left_assoc by assumption. apply MAXD_pos.
-  - exact Hs.
-  - exists n. intros fuel Hf. specialize (Hn fuel Hf). cbn [denote] in Hn. rewrite <- Hn. f_equal.
-    rewrite !pp_infix_bin. unfold rhs.
-    replace (is_bin b) with false by (destruct b; try discriminate Hb; reflexivity).
-    replace (is_bin c) with false by (destruct c; try discriminate Hc; reflexivity).
-    repeat (rewrite <- ?app_assoc; cbn [app]). reflexivity.
+  intros Hwf Hsafe Hn Hs Hg Hf. apply ev_run; [|exact Hf]. apply (infix_roundtrip s rest Hwf Hsafe Hn Hs Hg).
 Qed.
 
 Lemma notations_agree s rest :
   wf_sx s = true -> infix_safe s = true -> nest_infix s <= MAXD -> nest_prefix s <= MAXD -> stop_c (curc rest) = true ->
+  gd_free rest = true ->
   exists n, forall fuel, n <= fuel ->
     parse_expression fuel 0 (pp_infix s ++ rest) false = parse_expression fuel 0 (pp_prefix s ++ rest) false.
 Proof.
-  intros Hwf Hsafe Hni Hnp Hs. destruct (infix_roundtrip s rest Hwf Hsafe Hni Hs) as [n Hn].
+  intros Hwf Hsafe Hni Hnp Hs Hg. destruct (infix_roundtrip s rest Hwf Hsafe Hni Hs Hg) as [n Hn].
   exists (n + S (fpp s)). intros fuel Hf. rewrite Hn by lia. symmetry. apply prefix_roundtrip; try assumption. lia.
+Qed.
+
+(* --- instances of the round trip: left associativity, unary and postfix binding on either side, UPPERCASE < *)
+Definition is_atom (s : sx) : bool := match s with SNum _ | SBool _ | SVar _ => true | _ => false end.
+
+Lemma MAXD_ge2 : 2 <= MAXD.
+Proof. unfold MAXD, MAX_RECURSION_DEPTH. lia. Qed.
+Lemma atom_not_bin a : is_atom a = true -> is_bin a = false.
+Proof. destruct a; try discriminate; reflexivity. Qed.
+
+Ltac atoms :=
+  repeat match goal with
+  | H : is_atom ?a = true |- _ => destruct a; try discriminate H; clear H
+  end.
+
+Lemma left_assoc op1 op2 a b c rest :
+  is_atom a = true -> is_atom b = true -> is_atom c = true ->
+  is_infix_binary_op op1 = true -> is_infix_binary_op op2 = true ->
+  stop_c (curc rest) = true -> gd_free rest = true ->
+  exists n, forall fuel, n <= fuel ->
+    parse_expression fuel 0 (pp_infix a ++ T op1 :: pp_infix b ++ T op2 :: pp_infix c ++ rest) false
+    = Ok (Some (EOp op2 [EOp op1 [denote a; denote b]; denote c])) rest false.
+Proof.
+  intros Ha Hb Hc H1 H2 Hs Hg.
+  destruct (infix_roundtrip (SBin op2 (SBin op1 a b) c) rest) as [n Hn]; try assumption.
+  - atoms; unfold wf_sx; cbn [forall_sub wf_node]; rewrite H1, H2; reflexivity.
+  - atoms; reflexivity.
+  - atoms; cbn; pose proof MAXD_ge2; lia.
+  - exists n. intros fuel Hf. specialize (Hn fuel Hf). cbn [denote] in Hn. rewrite <- Hn. f_equal.
+    rewrite !pp_infix_bin. unfold rhs. rewrite (atom_not_bin b Hb), (atom_not_bin c Hc).
+    repeat (rewrite <- ?app_assoc; cbn [app]). reflexivity.
 Qed.
 
 Lemma unary_operand u op a b rest :
   is_atom a = true -> is_atom b = true -> is_unary_op u = true -> is_infix_binary_op op = true ->
-  lt_ok op a = true -> stop_c (curc rest) = true ->
+  stop_c (curc rest) = true -> gd_free rest = true ->
   (exists n, forall fuel, n <= fuel ->
      parse_expression fuel 0 (pp_infix a ++ T op :: T u :: pp_infix b ++ rest) false
      = Ok (Some (EOp op [denote a; EOp u [denote b]])) rest false) /\
@@ -946,87 +1128,92 @@ Lemma unary_operand u op a b rest :
      parse_expression fuel 0 (T u :: pp_infix a ++ T op :: pp_infix b ++ rest) false
      = Ok (Some (EOp op [EOp u [denote a]; denote b])) rest false).
 Proof.
-  unfold lt_ok. intros Ha Hb Hu Hop Hlt Hs. split.
-  - destruct (infix_roundtrip (SBin op a (SUn u b)) rest) as [n Hn].
-    + destruct a; try discriminate Ha; destruct b; try discriminate Hb; unfold wf_sx; cbn [forall_sub wf_node]; rewrite Hop, Hu; reflexivity.
-    + destruct a; try discriminate Ha; destruct b; try discriminate Hb; unfold infix_safe;
-        cbn [forall_sub node_ok ok_right ok_unary ok_group ok_lt is_postfix bad_group is_bin lead_un last_var andb negb] in *; rewrite ?Hlt; reflexivity.
-    + destruct a; try discriminate Ha; destruct b; try discriminate Hb; cbn; apply MAXD_pos.
-    + exact Hs.
+  intros Ha Hb Hu Hop Hs Hg. pose proof (atom_not_bin a Ha) as Hna. pose proof (atom_not_bin b Hb) as Hnb. split.
+  - destruct (infix_roundtrip (SBin op a (SUn u b)) rest) as [n Hn]; try assumption.
+    + atoms; unfold wf_sx; cbn [forall_sub wf_node]; rewrite Hop, Hu; reflexivity.
+    + atoms; reflexivity.
+    + atoms; cbn; pose proof MAXD_ge2; lia.
     + exists n. intros fuel Hf. specialize (Hn fuel Hf). cbn [denote] in Hn. rewrite <- Hn. f_equal.
-      rewrite pp_infix_bin. unfold rhs. cbn [is_bin]. rewrite pp_infix_un. unfold rhs.
-      replace (is_bin b) with false by (destruct b; try discriminate Hb; reflexivity).
+      rewrite pp_infix_bin. unfold rhs. cbn [is_bin]. rewrite pp_infix_un. unfold rhs. rewrite Hnb.
       repeat (rewrite <- ?app_assoc; cbn [app]). reflexivity.
-  - destruct (infix_roundtrip (SBin op (SUn u a) b) rest) as [n Hn].
-    + destruct a; try discriminate Ha; destruct b; try discriminate Hb; unfold wf_sx; cbn [forall_sub wf_node]; rewrite Hop, Hu; reflexivity.
-    + destruct a; try discriminate Ha; destruct b; try discriminate Hb; unfold infix_safe;
-        cbn [forall_sub node_ok ok_right ok_unary ok_group ok_lt is_postfix bad_group is_bin lead_un last_var andb negb] in *; rewrite ?Hlt; reflexivity.
-    + destruct a; try discriminate Ha; destruct b; try discriminate Hb; cbn; apply MAXD_pos.
-    + exact Hs.
+  - destruct (infix_roundtrip (SBin op (SUn u a) b) rest) as [n Hn]; try assumption.
+    + atoms; unfold wf_sx; cbn [forall_sub wf_node]; rewrite Hop, Hu; reflexivity.
+    + atoms; reflexivity.
+    + atoms; cbn; pose proof MAXD_ge2; lia.
     + exists n. intros fuel Hf. specialize (Hn fuel Hf). cbn [denote] in Hn. rewrite <- Hn. f_equal.
-      rewrite pp_infix_bin, pp_infix_un. unfold rhs.
-      replace (is_bin a) with false by (destruct a; try discriminate Ha; reflexivity).
-      replace (is_bin b) with false by (destruct b; try discriminate Hb; reflexivity).
+      rewrite pp_infix_bin, pp_infix_un. unfold rhs. rewrite Hna, Hnb.
       repeat (rewrite <- ?app_assoc; cbn [app]). reflexivity.
 Qed.
 
-Lemma postfix_left op p x i b rest :
-  is_atom b = true -> is_infix_binary_op op = true -> stop_c (curc rest) = true ->
+(* postfix forms bind tighter than any infix or unary operator, on both sides *)
+Lemma postfix_binds op u p x i a rest :
+  is_atom a = true -> is_infix_binary_op op = true -> is_unary_op u = true -> stop_c (curc rest) = true -> gd_free rest = true ->
   (exists n, forall fuel, n <= fuel ->
-     parse_expression fuel 0 (Tok K_IDENTIFIER p :: T K_DOT :: Tok K_IDENTIFIER x :: T op :: pp_infix b ++ rest) false
-     = Ok (Some (EOp op [EField (EVar p) x; denote b])) rest false) /\
+     parse_expression fuel 0 (Tok K_IDENTIFIER p :: T K_DOT :: Tok K_IDENTIFIER x :: T op :: pp_infix a ++ rest) false
+     = Ok (Some (EOp op [EField (EVar p) x; denote a])) rest false) /\
   (exists n, forall fuel, n <= fuel ->
-     parse_expression fuel 0 (Tok K_IDENTIFIER p :: T K_DOT :: Tok K_NUMBER i :: T op :: pp_infix b ++ rest) false
-     = Ok (Some (EOp op [ETIdx (EVar p) (wrap32 (atoll i)); denote b])) rest false).
+     parse_expression fuel 0 (pp_infix a ++ T op :: Tok K_IDENTIFIER p :: T K_DOT :: Tok K_IDENTIFIER x :: rest) false
+     = Ok (Some (EOp op [denote a; EField (EVar p) x])) rest false) /\
+  (exists n, forall fuel, n <= fuel ->
+     parse_expression fuel 0 (pp_infix a ++ T op :: Tok K_IDENTIFIER p :: T K_DOT :: Tok K_NUMBER i :: rest) false
+     = Ok (Some (EOp op [denote a; ETIdx (EVar p) (wrap32 (atoll i))])) rest false) /\
+  (exists n, forall fuel, n <= fuel ->
+     parse_expression fuel 0 (T u :: Tok K_IDENTIFIER p :: T K_DOT :: Tok K_IDENTIFIER x :: rest) false
+     = Ok (Some (EOp u [EField (EVar p) x])) rest false).
 Proof.
-  intros Hb Hop Hs. split.
-  - destruct (infix_roundtrip (SBin op (SField (SVar p) x) b) rest) as [n Hn].
-    + destruct b; try discriminate Hb; unfold wf_sx; cbn [forall_sub wf_node]; rewrite Hop; reflexivity.
-    + destruct b; try discriminate Hb; unfold infix_safe;
-        cbn [forall_sub node_ok ok_right ok_unary ok_group ok_lt is_postfix bad_group is_bin lead_un last_var upper_opt andb negb];
-        rewrite ?andb_false_r; reflexivity.
-    + destruct b; try discriminate Hb; cbn; apply MAXD_pos.
-    + exact Hs.
+  intros Ha Hop Hu Hs Hg. pose proof (atom_not_bin a Ha) as Hna. repeat split.
+  - destruct (infix_roundtrip (SBin op (SField (SVar p) x) a) rest) as [n Hn]; try assumption.
+    + atoms; unfold wf_sx; cbn [forall_sub wf_node]; rewrite Hop; reflexivity.
+    + atoms; reflexivity.
+    + atoms; cbn; pose proof MAXD_ge2; lia.
     + exists n. intros fuel Hf. specialize (Hn fuel Hf). cbn [denote] in Hn. rewrite <- Hn. f_equal.
-      rewrite pp_infix_bin. unfold rhs. replace (is_bin b) with false by (destruct b; try discriminate Hb; reflexivity).
-      cbn [pp_infix is_bin is_un orb]. repeat (rewrite <- ?app_assoc; cbn [app]). reflexivity.
-  - destruct (infix_roundtrip (SBin op (STIdx (SVar p) i) b) rest) as [n Hn].
-    + destruct b; try discriminate Hb; unfold wf_sx; cbn [forall_sub wf_node]; rewrite Hop; reflexivity.
-    + destruct b; try discriminate Hb; unfold infix_safe;
-        cbn [forall_sub node_ok ok_right ok_unary ok_group ok_lt is_postfix bad_group is_bin lead_un last_var upper_opt andb negb];
-        rewrite ?andb_false_r; reflexivity.
-    + destruct b; try discriminate Hb; cbn; apply MAXD_pos.
-    + exact Hs.
+      rewrite pp_infix_bin. unfold rhs. rewrite Hna. cbn [pp_infix is_bin is_un orb]. repeat (rewrite <- ?app_assoc; cbn [app]). reflexivity.
+  - destruct (infix_roundtrip (SBin op a (SField (SVar p) x)) rest) as [n Hn]; try assumption.
+    + atoms; unfold wf_sx; cbn [forall_sub wf_node]; rewrite Hop; reflexivity.
+    + atoms; reflexivity.
+    + atoms; cbn; pose proof MAXD_ge2; lia.
     + exists n. intros fuel Hf. specialize (Hn fuel Hf). cbn [denote] in Hn. rewrite <- Hn. f_equal.
-      rewrite pp_infix_bin. unfold rhs. replace (is_bin b) with false by (destruct b; try discriminate Hb; reflexivity).
-      cbn [pp_infix is_bin is_un orb]. repeat (rewrite <- ?app_assoc; cbn [app]). reflexivity.
+      rewrite pp_infix_bin. unfold rhs. cbn [pp_infix is_bin is_un orb]. repeat (rewrite <- ?app_assoc; cbn [app]). reflexivity.
+  - destruct (infix_roundtrip (SBin op a (STIdx (SVar p) i)) rest) as [n Hn]; try assumption.
+    + atoms; unfold wf_sx; cbn [forall_sub wf_node]; rewrite Hop; reflexivity.
+    + atoms; reflexivity.
+    + atoms; cbn; pose proof MAXD_ge2; lia.
+    + exists n. intros fuel Hf. specialize (Hn fuel Hf). cbn [denote] in Hn. rewrite <- Hn. f_equal.
+      rewrite pp_infix_bin. unfold rhs. cbn [pp_infix is_bin is_un orb]. repeat (rewrite <- ?app_assoc; cbn [app]). reflexivity.
+  - destruct (infix_roundtrip (SUn u (SField (SVar p) x)) rest) as [n Hn]; try assumption.
+    + unfold wf_sx; cbn [forall_sub wf_node]; rewrite Hu; reflexivity.
+    + reflexivity.
+    + cbn; pose proof MAXD_ge2; lia.
+    + exists n. intros fuel Hf. specialize (Hn fuel Hf). cbn [denote] in Hn. rewrite <- Hn. f_equal.
 Qed.
 
-(* ================================================================ 5. witnesses against the unrestricted infix round trip *)
+(* an UPPERCASE variable left of '<' is an ordinary operand (unless the input really continues `< types > . Name`) *)
+Lemma upper_lt X b rest :
+  is_atom b = true -> stop_c (curc rest) = true -> gd_free rest = true ->
+  exists n, forall fuel, n <= fuel ->
+    parse_expression fuel 0 (Tok K_IDENTIFIER X :: T K_LT :: pp_infix b ++ rest) false
+    = Ok (Some (EOp K_LT [EVar X; denote b])) rest false.
+Proof.
+  intros Hb Hs Hg. pose proof (atom_not_bin b Hb) as Hnb.
+  destruct (infix_roundtrip (SBin K_LT (SVar X) b) rest) as [n Hn]; try assumption.
+  - atoms; reflexivity.
+  - atoms; reflexivity.
+  - atoms; cbn; pose proof MAXD_ge2; lia.
+  - exists n. intros fuel Hf. specialize (Hn fuel Hf). cbn [denote] in Hn. rewrite <- Hn. f_equal.
+    rewrite pp_infix_bin. unfold rhs. rewrite Hnb. reflexivity.
+Qed.
+
+(* ================================================================ 5. witnesses *)
 Definition b_1 : bytes := [49%N]. Definition b_2 : bytes := [50%N]. Definition b_6 : bytes := [54%N].
 Definition b_a : bytes := [97%N]. Definition b_p : bytes := [112%N]. Definition b_x : bytes := [120%N].
 Definition b_MAXV : bytes := [77%N; 65%N; 88%N; 86%N].
+(* the three inputs the unfixed parser misread (findings fixed by 1b19ab4 / afe9379), kept as regression witnesses *)
 Definition w_postfix_right : sx := SBin K_PLUS (SNum b_1) (SField (SVar b_p) b_x).
 Definition w_postfix_unary : sx := SUn K_MINUS (SField (SVar b_p) b_x).
-Definition w_group_unary : sx := SBin K_STAR (SNum b_2) (SBin K_PLUS (SUn K_MINUS (SVar b_a)) (SNum b_1)).
 Definition w_upper_lt : sx := SBin K_LT (SVar b_MAXV) (SNum b_6).
+(* the input that is still misread: open finding c07:infix:group-leading-unary *)
+Definition w_group_unary : sx := SBin K_STAR (SNum b_2) (SBin K_PLUS (SUn K_MINUS (SVar b_a)) (SNum b_1)).
 
-Lemma refuted_postfix_right :
-  wf_sx w_postfix_right = true /\ nest_infix w_postfix_right <= MAXD /\
-  denote w_postfix_right = EOp K_PLUS [ENum 1; EField (EVar b_p) b_x] /\
-  forall fuel, fuel_for (pp_infix w_postfix_right) <= fuel ->
-    parse_expression fuel 0 (pp_infix w_postfix_right) false = Ok (Some (EField (EOp K_PLUS [ENum 1; EVar b_p]) b_x)) [] false.
-Proof.
-  split; [reflexivity|]. split; [cbn; apply MAXD_pos|]. split; [reflexivity|].
-  apply parse_stable; [vm_compute; reflexivity|discriminate].
-Qed.
-Lemma refuted_postfix_unary :
-  wf_sx w_postfix_unary = true /\ denote w_postfix_unary = EOp K_MINUS [EField (EVar b_p) b_x] /\
-  forall fuel, fuel_for (pp_infix w_postfix_unary) <= fuel ->
-    parse_expression fuel 0 (pp_infix w_postfix_unary) false = Ok (Some (EField (EOp K_MINUS [EVar b_p]) b_x)) [] false.
-Proof.
-  split; [reflexivity|]. split; [reflexivity|]. apply parse_stable; [vm_compute; reflexivity|discriminate].
-Qed.
 Lemma refuted_group_unary :
   wf_sx w_group_unary = true /\ denote w_group_unary = EOp K_STAR [ENum 2; EOp K_PLUS [EOp K_MINUS [EVar b_a]; ENum 1]] /\
   forall fuel, fuel_for (pp_infix w_group_unary) <= fuel ->
@@ -1034,12 +1221,6 @@ Lemma refuted_group_unary :
     = Ok (Some (EOp K_STAR [ENum 2; EOp K_MINUS [EOp K_PLUS [EVar b_a; ENum 1]]])) [] false.
 Proof.
   split; [reflexivity|]. split; [reflexivity|]. apply parse_stable; [vm_compute; reflexivity|discriminate].
-Qed.
-Lemma refuted_upper_lt :
-  wf_sx w_upper_lt = true /\
-  forall fuel, fuel_for (pp_infix w_upper_lt) <= fuel -> parse_expression fuel 0 (pp_infix w_upper_lt) false = Generic.
-Proof.
-  split; [reflexivity|]. apply parse_stable; [vm_compute; reflexivity|discriminate].
 Qed.
 
 Definition infix_ops : list kind :=
@@ -1051,3 +1232,6 @@ Fixpoint ladder (n : nat) (inner : list token) : list token :=
 (* n nested prefix forms  (+ 1 (+ 1 ... inner ...))  *)
 Fixpoint pladder (n : nat) (inner : list token) : list token :=
   match n with O => inner | S m => T K_LPAREN :: T K_PLUS :: Tok K_NUMBER b_1 :: pladder m inner ++ [T K_RPAREN] end.
+(* n unary minus signs in front of inner *)
+Fixpoint uladder (n : nat) (inner : list token) : list token :=
+  match n with O => inner | S m => T K_MINUS :: uladder m inner end.
